@@ -156,7 +156,7 @@ mut("lexer_bang_split_keeps_bang", ["C15"], "bnd/c15",
     [("parser.go", "\t\t\t\tp.tokens = append(p.tokens, token{typ: ident, val: \"!\"})\n\t\t\t\tp.tokens = append(p.tokens, token{typ: ident, val: next})", "\t\t\t\tp.tokens = append(p.tokens, token{typ: ident, val: \"!\"})\n\t\t\t\tp.tokens = append(p.tokens, token{typ: ident, val: t})")], "!name is split into ! and !name")
 mut("empty_list_is_int_list", ["C17"], "parser.parseList.$1/post/",
     [("parser.go", "\t\tif typ == integer {\n\t\t\tints := make([]int64, 0, len(strs))", "\t\tif typ == integer || len(strs) == 0 {\n\t\t\tints := make([]int64, 0, len(strs))")], "the empty list literal is an empty int list")
-mut("generator_zero_check_skips_second_operand", ["C20"], "bnd/c20",
+mut("generator_zero_check_skips_second_operand", ["C20"], "GenerateRandomExpr.helper/",
     [("util.go", "\t\t\tfor _, res := range childRes[1:] {\n\t\t\t\tif res == int64(0) {", "\t\t\tfor _, res := range childRes[2:] {\n\t\t\t\tif res == int64(0) {")], "a zero second operand no longer excludes / and %")
 mut("event_scidx_points_to_event_node", ["C12"], "bnd/",
     [("compiler.go", "\t\tif n.scIdx != -1 {\n\t\t\tn.scIdx = realIdxes[n.scIdx]\n\t\t}", "\t\tif n.scIdx != -1 {\n\t\t\tn.scIdx = eventNodeIdxes[n.scIdx]\n\t\t}")], "with events on, short-circuit jumps land on the event node in front of the target")
@@ -180,6 +180,8 @@ mut("lexer_string_backslash_escapes", ["C13"], "parser.lex/inv/loop1[literal-end
     [("parser.go", "\t\t\tfor ; i < len(A); i++ {\n\t\t\t\tif A[i] == '\"' {\n\t\t\t\t\ti++\n\t\t\t\t\treturn string(A[start:i]), nil", "\t\t\tfor ; i < len(A); i++ {\n\t\t\t\tif A[i] == '\\\\' && i+1 < len(A) {\n\t\t\t\t\ti++\n\t\t\t\t\tcontinue\n\t\t\t\t}\n\t\t\t\tif A[i] == '\"' {\n\t\t\t\t\ti++\n\t\t\t\t\treturn string(A[start:i]), nil")], "the lexer starts to honour backslash escapes inside string literals (Dump prints raw text)")
 mut("infix_ties_do_not_reduce", ["C15"], "parser.parseInfixExpression/exit/loop1[reduction-stops-only-below-a-looser-operator]",
     [("parser.go", "\t\t\t\tif comparePrecedence(car, top.t) > 0 {\n\t\t\t\t\tbreak", "\t\t\t\tif comparePrecedence(car, top.t) >= 0 {\n\t\t\t\t\tbreak")], "operators of equal precedence group from the right")
+mut("generator_safe_pool_contains_mod", ["C20"], "GenerateRandomExpr/pre/GenerateRandomExpr.helper[operator-pools]",
+    [("util.go", '\t\tnumSafeOps = []string{"+", "-", "*"}', '\t\tnumSafeOps = []string{"+", "-", "*", "%"}')], "the pool used when an operand is 0 contains %")
 
 def main():
     out = os.path.join(os.path.dirname(os.path.abspath(__file__)), "mutants")
